@@ -3,16 +3,19 @@ package main
 import (
 	"bufio"
 	"bytes"
+	gocontext "context"
 	"encoding/base64"
 	"encoding/json"
 	"fmt"
 	"io"
+	"net"
 	"os"
 	"os/exec"
 	"strings"
 	"time"
 
 	"github.com/btcsuite/btcutil/base58"
+	"nhooyr.io/websocket"
 
 	"github.com/hyperledger/aries-framework-go/component/kmscrypto/doc/util/fingerprint"
 	"github.com/hyperledger/aries-framework-go/component/models/did"
@@ -23,11 +26,13 @@ import (
 	"github.com/hyperledger/aries-framework-go/pkg/didcomm/protocol/introduce"
 	"github.com/hyperledger/aries-framework-go/pkg/didcomm/protocol/issuecredential"
 	"github.com/hyperledger/aries-framework-go/pkg/didcomm/protocol/legacyconnection"
+	"github.com/hyperledger/aries-framework-go/pkg/didcomm/protocol/mediator"
 	"github.com/hyperledger/aries-framework-go/pkg/didcomm/protocol/messagepickup"
 	"github.com/hyperledger/aries-framework-go/pkg/didcomm/protocol/outofbandv2"
 	"github.com/hyperledger/aries-framework-go/pkg/didcomm/protocol/presentproof"
 	"github.com/hyperledger/aries-framework-go/pkg/didcomm/transport"
 	"github.com/hyperledger/aries-framework-go/pkg/framework/aries"
+	"github.com/hyperledger/aries-framework-go/pkg/framework/aries/defaults"
 	"github.com/hyperledger/aries-framework-go/pkg/framework/context"
 	"github.com/hyperledger/aries-framework-go/pkg/store/connection"
 	kmsapi "github.com/hyperledger/aries-framework-go/spi/kms"
@@ -52,6 +57,9 @@ type ProtoCase struct {
 	// out-of-band 2.0 invitation to AcceptInvitation; "batch-reply" = the message answers a BatchPickup call of the
 	// application that is waiting for its batch
 	Via string `json:"via,omitempty"`
+	// Reply (Via "api:<call>"): how the peer answers the request the application's call sent: once | twice |
+	// then-seed (the mutated answer, then the regular one) | seed-then | late (after the call timed out) | late-twice
+	Reply string `json:"reply,omitempty"`
 }
 
 // ---------- templates: what the framework's encoders emit for each message type (thread T) ----------
@@ -148,16 +156,16 @@ func templates() map[string][]string {
 		"mediator": {
 			`{"@type":"https://didcomm.org/coordinatemediation/1.0/mediate-request","@id":"T§","~timing":{}}`,
 			`{"@type":"https://didcomm.org/coordinatemediation/1.0/keylist-update","@id":"k1","updates":[{"recipient_key":"did:key:z6MkpTHR8VNsBxYAAWHut2Geadd9jSwuBV8xRoAnwWsdvktH","action":"add"}]}`,
-			`{"@type":"https://didcomm.org/coordinatemediation/1.0/mediate-grant","@id":"k2","endpoint":"http://127.0.0.1:1/","routing_keys":["did:key:z6MkpTHR8VNsBxYAAWHut2Geadd9jSwuBV8xRoAnwWsdvktH"],` + thread + `}`,
-			`{"@type":"https://didcomm.org/coordinatemediation/1.0/keylist-update-response","@id":"k3","updated":[{"recipient_key":"did:key:z6MkpTHR8VNsBxYAAWHut2Geadd9jSwuBV8xRoAnwWsdvktH","action":"add","result":"success"}],` + thread + `}`,
+			`{"@type":"https://didcomm.org/coordinatemediation/1.0/mediate-grant","@id":"@REQID@","endpoint":"http://127.0.0.1:1/","routing_keys":["did:key:z6MkpTHR8VNsBxYAAWHut2Geadd9jSwuBV8xRoAnwWsdvktH"],` + thread + `}`,
+			`{"@type":"https://didcomm.org/coordinatemediation/1.0/keylist-update-response","@id":"@REQID@","updated":[{"recipient_key":"did:key:z6MkpTHR8VNsBxYAAWHut2Geadd9jSwuBV8xRoAnwWsdvktH","action":"add","result":"success"}],` + thread + `}`,
 			`{"@type":"https://didcomm.org/routing/1.0/forward","@id":"f1","to":"did:key:z6MkpTHR8VNsBxYAAWHut2Geadd9jSwuBV8xRoAnwWsdvktH","msg":{"protected":"e30","iv":"AAAA","ciphertext":"AAAA","tag":"AAAA"}}`,
 			`{"type":"https://didcomm.org/routing/2.0/forward","id":"f2","body":{"next":"did:key:z6MkpTHR8VNsBxYAAWHut2Geadd9jSwuBV8xRoAnwWsdvktH"},"to":["did:example:m"],"attachments":[{"id":"a","data":{"json":{"protected":"e30"}}}]}`,
 		},
 		"messagepickup": {
 			`{"@type":"https://didcomm.org/messagepickup/1.0/status-request","@id":"T§",` + thread + `}`,
 			`{"@type":"https://didcomm.org/messagepickup/1.0/batch-pickup","@id":"m1","batch_size":1,` + thread + `}`,
-			`{"@type":"https://didcomm.org/messagepickup/1.0/status","@id":"m2","message_count":1,"duration_waited":1,"last_added_time":"2020-01-01T00:00:00Z","last_delivered_time":"2020-01-01T00:00:00Z","last_removed_time":"2020-01-01T00:00:00Z","total_size":1,` + thread + `}`,
-			`{"@type":"https://didcomm.org/messagepickup/1.0/batch","@id":"@BATCHID@","messages~attach":[{"id":"x","message":{"protected":"e30"}}],` + thread + `}`,
+			`{"@type":"https://didcomm.org/messagepickup/1.0/status","@id":"@REQID@","message_count":1,"duration_waited":1,"last_added_time":"2020-01-01T00:00:00Z","last_delivered_time":"2020-01-01T00:00:00Z","last_removed_time":"2020-01-01T00:00:00Z","total_size":1,` + thread + `}`,
+			`{"@type":"https://didcomm.org/messagepickup/1.0/batch","@id":"@REQID@","messages~attach":[{"id":"x","message":{"protected":"e30"}}],` + thread + `}`,
 			`{"@type":"https://didcomm.org/messagepickup/1.0/noop","@id":"m4","~timing":{}}`,
 		},
 		"outofband": {
@@ -196,6 +204,8 @@ type workReq struct {
 	Inv  string          `json:"inv"` // id of the item's invitation / parent thread
 	Alt  string          `json:"alt"` // thread id to use when the agent has no connection record for Inv
 	Via  string          `json:"via"`
+	Late int             `json:"late_ms"` // api call: the first answer arrives this long after the request
+	Raw  []byte          `json:"raw,omitempty"` // a transport frame (any bytes)
 }
 
 type nullTransport struct{}
@@ -215,9 +225,14 @@ func (nullTransport) AcceptRecipient([]string) bool { return true }
 func (nullTransport) Accept(string) bool            { return true }
 
 type target struct {
-	ctx    *context.Provider
-	svcs   []svc
-	lookup *connection.Lookup
+	ctx     *context.Provider
+	svcs    []svc
+	lookup  *connection.Lookup
+	rec     *connection.Recorder
+	pool    *hostilePool
+	lastReq string // @id of the request the last application call sent
+	wsURL   string
+	nconn   int
 }
 
 type svc interface {
@@ -227,7 +242,10 @@ type svc interface {
 }
 
 func newTarget() *target {
+	wsAddr := freeAddr()
+
 	fw, err := aries.New(aries.WithStoreProvider(mem.NewProvider()), aries.WithProtocolStateStoreProvider(mem.NewProvider()),
+		defaults.WithInboundWSAddr(wsAddr, "ws://"+wsAddr, "", "", 0),
 		aries.WithOutboundTransports(nullTransport{}),
 		// the goal code of the out-of-band 2.0 template is routed to the present-proof service
 		aries.WithServiceMsgTypeTargets(dispatcher.MessageTypeTarget{Target: "gc", MsgType: "present-proof/3.0/request-presentation"}))
@@ -236,7 +254,7 @@ func newTarget() *target {
 	ctx, err := fw.Context()
 	must(err)
 
-	t := &target{ctx: ctx}
+	t := &target{ctx: ctx, wsURL: "ws://" + wsAddr}
 
 	for _, s := range ctx.AllServices() {
 		t.svcs = append(t.svcs, s)
@@ -262,10 +280,46 @@ func newTarget() *target {
 	must(err)
 
 	t.lookup = rec.Lookup
+	t.rec = rec
+	t.pool = newHostilePool()
 
 	must(rec.SaveConnectionRecord(&connection.Record{ConnectionID: "conn1", State: "completed", ThreadID: "Tconn",
 		TheirDID: theirDID, MyDID: myDID, Namespace: "my", TheirLabel: "bob",
 		RecipientKeys: []string{"did:key:z6MkpTHR8VNsBxYAAWHut2Geadd9jSwuBV8xRoAnwWsdvktH"}}))
+
+	// the sender is this agent's router (what AddKey / BatchPickup ... need): the registration is written directly
+	for _, s := range ctx.AllServices() {
+		if m, ok := s.(*mediator.Service); ok {
+			done := make(chan struct{})
+
+			go func() {
+				_ = m.Register("conn1", mediator.ClientOption(func(o *mediator.ClientOptions) { o.Timeout = 3 * time.Second }))
+
+				close(done)
+			}()
+
+			select {
+			case packed := <-sentCh:
+				if env, e := ctx.Packager().UnpackMessage(packed); e == nil {
+					var req struct {
+						ID string `json:"@id"`
+					}
+
+					if json.Unmarshal(env.Message, &req) == nil {
+						grant, _ := service.ParseDIDCommMsgMap([]byte(`{"@type":"https://didcomm.org/coordinatemediation/1.0/mediate-grant","@id":"` +
+							req.ID + `","endpoint":"http://127.0.0.1:1/","routing_keys":["did:key:z6MkpTHR8VNsBxYAAWHut2Geadd9jSwuBV8xRoAnwWsdvktH"]}`))
+						_, _ = m.HandleInbound(grant, service.NewDIDCommContext(myDID, theirDID, nil))
+					}
+				}
+			case <-time.After(3 * time.Second): //nolint:gomnd
+			}
+
+			select {
+			case <-done:
+			case <-time.After(5 * time.Second): //nolint:gomnd
+			}
+		}
+	}
 
 	// an inbox for the sender at the message pickup service
 	for _, s := range ctx.AllServices() {
@@ -276,6 +330,15 @@ func newTarget() *target {
 	}
 
 	return t
+}
+
+func freeAddr() string {
+	ln, err := net.Listen("tcp", "127.0.0.1:0")
+	must(err)
+
+	defer ln.Close() //nolint:errcheck
+
+	return ln.Addr().String()
 }
 
 // autoContinue approves every action the way an application would (introduce: with a recipient).
@@ -357,61 +420,96 @@ func (t *target) acceptOOBv2(raw []byte) {
 	}
 }
 
-// batchReply: the application asks its router for a batch; the message is the router's answer to that very request.
-func (t *target) batchReply(raw []byte) {
-	var mp *messagepickup.Service
-
-	for _, s := range t.svcs {
-		if m, ok := s.(*messagepickup.Service); ok {
-			mp = m
-		}
-	}
-
-	if mp == nil {
-		return
-	}
-
+// apiCall starts a call of the application's API that sends a request to the peer and waits for the answer; the @id of
+// the request (taken from the outbound transport) is what the peer's answers refer to.
+func (t *target) apiCall(name string) {
 	for len(sentCh) > 0 {
 		<-sentCh
 	}
 
-	done := make(chan struct{})
+	t.lastReq = "none"
 
-	go func() {
-		_, _ = mp.BatchPickup("conn1", 1)
+	var (
+		med *mediator.Service
+		mp  *messagepickup.Service
+	)
 
-		close(done)
-	}()
+	for _, s := range t.svcs {
+		switch x := s.(type) {
+		case *mediator.Service:
+			med = x
+		case *messagepickup.Service:
+			mp = x
+		}
+	}
 
-	var packed []byte
-
-	select {
-	case packed = <-sentCh:
-	case <-done:
-		return
-	case <-time.After(2 * time.Second):
+	if med == nil || mp == nil {
 		return
 	}
 
-	env, err := t.ctx.Packager().UnpackMessage(packed)
+	const key = "did:key:z6MkpTHR8VNsBxYAAWHut2Geadd9jSwuBV8xRoAnwWsdvktH"
+
+	switch name {
+	case "mediator-addkey":
+		go func() { _ = med.AddKey("conn1", key) }()
+	case "mediator-register":
+		// a fresh connection with the same peer that is not yet registered as a router
+		t.nconn++
+		id := fmt.Sprintf("conn-r%d", t.nconn)
+
+		if t.rec.SaveConnectionRecord(&connection.Record{ConnectionID: id, State: "completed", ThreadID: "T" + id,
+			TheirDID: theirDID, MyDID: myDID, Namespace: "my"}) != nil {
+			return
+		}
+
+		go func() { _ = med.Register(id, mediator.ClientOption(func(o *mediator.ClientOptions) { o.Timeout = 2 * time.Second })) }()
+	case "pickup-batch":
+		go func() { _, _ = mp.BatchPickup("conn1", 1) }()
+	case "pickup-status":
+		go func() { _, _ = mp.StatusRequest("conn1") }()
+	case "pickup-noop":
+		go func() { _ = mp.Noop("conn1") }()
+	default:
+		return
+	}
+
+	select {
+	case packed := <-sentCh:
+		env, err := t.ctx.Packager().UnpackMessage(packed)
+		if err != nil {
+			return
+		}
+
+		var req struct {
+			ID string `json:"@id"`
+		}
+
+		if json.Unmarshal(env.Message, &req) == nil && req.ID != "" {
+			t.lastReq = req.ID
+		}
+	case <-time.After(2 * time.Second): //nolint:gomnd
+	}
+}
+
+// wsFrame sends one frame to the agent's websocket inbound transport (whose listener goroutine has no recover).
+func (t *target) wsFrame(frame []byte) {
+	if t.wsURL == "" {
+		return
+	}
+
+	ctx, cancel := gocontext.WithTimeout(gocontext.Background(), 3*time.Second) //nolint:gomnd
+	defer cancel()
+
+	c, _, err := websocket.Dial(ctx, t.wsURL, nil) //nolint:bodyclose
 	if err != nil {
 		return
 	}
 
-	var req struct {
-		ID string `json:"@id"`
-	}
+	_ = c.Write(ctx, websocket.MessageBinary, frame)
 
-	if json.Unmarshal(env.Message, &req) != nil {
-		return
-	}
+	time.Sleep(20 * time.Millisecond) //nolint:gomnd
 
-	t.deliver(bytes.ReplaceAll(raw, []byte("@BATCHID@"), []byte(req.ID)), true)
-
-	select {
-	case <-done:
-	case <-time.After(200 * time.Millisecond):
-	}
+	_ = c.Close(websocket.StatusNormalClosure, "")
 }
 
 func (t *target) deliver(raw []byte, conn bool) {
@@ -453,11 +551,23 @@ func workerMain(_ string) {
 						raw = bytes.ReplaceAll(raw, []byte("@THID@"), []byte(t.threadOf(req.Inv, req.Alt)))
 					}
 
-					switch req.Via {
-					case "oobv2-accept":
+					raw = t.pool.substitute(raw)
+
+					switch {
+					case req.Via == "oobv2-accept":
 						t.acceptOOBv2(raw)
-					case "batch-reply":
-						t.batchReply(raw)
+					case strings.HasPrefix(req.Via, "api:"):
+						t.apiCall(strings.TrimPrefix(req.Via, "api:"))
+
+						if req.Late > 0 {
+							time.Sleep(time.Duration(req.Late) * time.Millisecond)
+						}
+
+						t.deliver(bytes.ReplaceAll(raw, []byte("@REQID@"), []byte(t.lastReq)), true)
+					case req.Via == "reply":
+						t.deliver(bytes.ReplaceAll(raw, []byte("@REQID@"), []byte(t.lastReq)), true)
+					case req.Via == "ws-frame":
+						t.wsFrame(req.Raw)
 					default:
 						t.deliver(raw, req.Conn)
 					}
@@ -467,9 +577,29 @@ func workerMain(_ string) {
 					}
 
 					fmt.Fprintf(out, "ok %d\n", req.ID)
+				case "pause":
+					time.Sleep(time.Duration(req.Wait) * time.Millisecond)
 				case "flush":
 					time.Sleep(time.Duration(req.Wait) * time.Millisecond)
-					fmt.Fprintf(out, "flushed\n")
+
+					// a sender-controlled endpoint some handler dereferenced and is still waiting for: give the client
+					// the whole hang threshold to give up
+					held := 0
+
+					if n, _ := t.pool.pending(); n > 0 {
+						deadline := time.Now().Add(hangLimit)
+						for time.Now().Before(deadline) {
+							if n, _ = t.pool.pending(); n == 0 {
+								break
+							}
+
+							time.Sleep(200 * time.Millisecond) //nolint:gomnd
+						}
+
+						held, _ = t.pool.pending()
+					}
+
+					fmt.Fprintf(out, "flushed held=%d flood=%d contacts=%d\n", held, t.pool.flooded(), t.pool.contacts())
 				}
 
 				out.Flush()
@@ -486,8 +616,11 @@ func workerMain(_ string) {
 
 type protoItem struct {
 	pc   ProtoCase
-	seq  [][]byte // messages to deliver: prefix + the mutated message (+ once more)
-	uniq string   // suffix of the item's thread ids
+	seq   [][]byte // messages to deliver: prefix + the mutated message (+ once more)
+	uniq  string   // suffix of the item's thread ids
+	waits []int    // pause (ms) before the k-th message
+	// lateFirst: the first answer arrives only after the application's call has timed out
+	lateFirst bool
 }
 
 type batchResult struct {
@@ -495,6 +628,8 @@ type batchResult struct {
 	timeout bool
 	stderr  string
 	lastOK  int
+	held    int   // requests to hostile endpoints the agent still had open when the hang threshold passed
+	flood   int64 // bytes the agent took from the endless stream
 }
 
 func runBatch(items []protoItem, quiesce int) batchResult {
@@ -525,7 +660,16 @@ func runBatch(items []protoItem, quiesce int) batchResult {
 			}
 
 			if strings.HasPrefix(line, "flushed") {
+				var contacts int64
+
+				fmt.Sscanf(line, "flushed held=%d flood=%d contacts=%d", &res.held, &res.flood, &contacts) //nolint:errcheck
+
+				if res.held > 0 || res.flood > 1<<25 {
+					res.timeout = true
+				}
+
 				done <- res
+
 				return
 			}
 
@@ -552,8 +696,32 @@ func runBatch(items []protoItem, quiesce int) batchResult {
 					wait = 0
 				}
 
-				b, _ := json.Marshal(workReq{Op: "msg", ID: i, Msg: m, Conn: it.pc.Conn, Wait: wait, //nolint:errcheck
-					Inv: "P" + it.uniq, Alt: "T" + it.uniq, Via: it.pc.Via})
+				via := it.pc.Via
+
+				if strings.HasPrefix(via, "api:") {
+					wait = 30 // the call (or the handler) works on the answer before the next one arrives
+
+					if k > 0 {
+						via = "reply"
+					}
+
+					if k == len(it.seq)-1 && strings.HasPrefix(it.pc.Reply, "late") && len(it.seq) > 0 {
+						wait = 30
+					}
+				}
+
+				late := 0
+				if it.lateFirst && k == 0 {
+					late = 10500 // updateTimeout of the services is 10 s
+				}
+
+				wr := workReq{Op: "msg", ID: i, Msg: m, Conn: it.pc.Conn, Wait: wait,
+					Inv: "P" + it.uniq, Alt: "T" + it.uniq, Via: via, Late: late}
+				if via == "ws-frame" {
+					wr.Msg, wr.Raw, wr.Wait = json.RawMessage("null"), m, 5
+				}
+
+				b, _ := json.Marshal(wr) //nolint:errcheck
 				w.Write(b)                                                                           //nolint:errcheck
 				w.WriteByte('\n')                                                                    //nolint:errcheck
 			}
@@ -565,7 +733,7 @@ func runBatch(items []protoItem, quiesce int) batchResult {
 		w.Flush()                                                 //nolint:errcheck
 	}()
 
-	limit := hangLimit + time.Duration(len(items))*200*time.Millisecond
+	limit := 2*hangLimit + time.Duration(len(items))*200*time.Millisecond
 
 	var res batchResult
 
@@ -581,6 +749,14 @@ func runBatch(items []protoItem, quiesce int) batchResult {
 	io.Copy(io.Discard, stdout) //nolint:errcheck
 
 	res.stderr = stderr.String()
+
+	// a panic inside an inbound transport's HTTP handler is recovered by net/http (the connection dies, the agent
+	// survives): the entry point panicked all the same
+	if !res.crashed && strings.Contains(res.stderr, "http: panic serving") {
+		res.crashed = true
+		i := strings.Index(res.stderr, "http: panic serving")
+		res.stderr = "panic: " + res.stderr[i:]
+	}
 	if res.crashed && !strings.Contains(res.stderr, "panic") && !strings.Contains(res.stderr, "fatal error") {
 		// the worker ended without a Go panic trace: not an implementation crash
 		res.stderr = "worker ended unexpectedly: " + res.stderr
@@ -647,14 +823,20 @@ func (r *runner) protoItems() []protoItem {
 					{Proto: proto, Index: idx, Path: m.Path, Mut: m.Name, Conn: true, Second: true}}
 
 				variants := all
+				always := strings.HasPrefix(m.Name, "attach-links-") || strings.HasPrefix(m.Name, "url-")
+
 				if r.tier != "thorough" && m.Name != "seed" {
 					// quick tier: every mutation in one of the three settings (rotating), every third one skipped
-					// (rotating with the seed, so that three seeds cover the closure)
-					if (mi+int(r.seed))%3 == 2 {
+					// (rotating with the seed, so that three seeds cover the closure); the sender-controlled URLs
+					// always, with a connection
+					if (mi+int(r.seed))%3 == 2 && !always {
 						continue
 					}
 
 					variants = all[mi%3 : mi%3+1]
+					if always {
+						variants = all[0:1]
+					}
 				}
 
 				for _, pc := range variants {
@@ -685,7 +867,7 @@ func (r *runner) protoItems() []protoItem {
 		proto string
 		idx   int
 		via   string
-	}{{"outofband", 3, "oobv2-accept"}, {"messagepickup", 3, "batch-reply"}} {
+	}{{"outofband", 3, "oobv2-accept"}} {
 		tree, ok := explodeWire([]byte(tpls[v.proto][v.idx]))
 		if !ok {
 			continue
@@ -703,6 +885,63 @@ func (r *runner) protoItems() []protoItem {
 			it.seq = append(it.seq, bytes.ReplaceAll(render(m.Tree), []byte("§"), []byte(it.uniq)))
 			items = append(items, it)
 		}
+	}
+
+	// calls of the application's API in flight or finished, answered by the peer once, twice, contradictorily, late
+	for _, v := range []struct {
+		proto string
+		idx   int
+		api   string
+	}{{"mediator", 3, "mediator-addkey"}, {"mediator", 2, "mediator-register"}, {"messagepickup", 3, "pickup-batch"},
+		{"messagepickup", 2, "pickup-status"}, {"messagepickup", 4, "pickup-noop"}} {
+		tree, ok := explodeWire([]byte(tpls[v.proto][v.idx]))
+		if !ok {
+			continue
+		}
+
+		seedWire := render(tree)
+		muts := append([]Mut{{Path: "", Name: "seed", Tree: tree}}, closure(tree)...)
+
+		for mi, m := range muts {
+			replies := []string{"once", "twice", "then-seed", "seed-then"}
+			if m.Name == "seed" {
+				replies = []string{"once", "twice", "late", "late-twice"}
+
+				if r.tier != "thorough" {
+					// quick tier: the answers after the call's 10 s timeout only for the two calls that register a
+					// channel under the request id
+					replies = []string{"once", "twice"}
+					if v.api == "mediator-addkey" || v.api == "pickup-batch" {
+						replies = append(replies, "late-twice")
+					}
+				}
+			} else if r.tier != "thorough" {
+				if (mi+int(r.seed))%3 != 0 && m.Name != "null" && m.Name != "arr-null" && m.Name != "str-x" {
+					continue
+				}
+
+				replies = replies[mi%4 : mi%4+1]
+			}
+
+			for _, rp := range replies {
+				it := protoItem{pc: ProtoCase{Proto: v.proto, Index: v.idx, Path: m.Path, Mut: m.Name, Conn: true,
+					Via: "api:" + v.api, Reply: rp}, uniq: fmt.Sprintf("-%d", len(items))}
+				wire := bytes.ReplaceAll(render(m.Tree), []byte("§"), []byte(it.uniq))
+				sw := bytes.ReplaceAll(seedWire, []byte("§"), []byte(it.uniq))
+
+				it.seq, it.lateFirst = replySeq(rp, wire, sw)
+
+				items = append(items, it)
+			}
+		}
+	}
+
+	// frames for the websocket inbound transport: what a hostile peer can write on the socket before anything is
+	// unpacked
+	for i, f := range wsFrames() {
+		it := protoItem{pc: ProtoCase{Proto: "ws", Index: i, Mut: "frame", Via: "ws-frame"}, uniq: fmt.Sprintf("-%d", len(items))}
+		it.seq = [][]byte{f}
+		items = append(items, it)
 	}
 
 	// state-dependent injection: after every prefix of every role-consistent path, every template of the protocol
@@ -767,7 +1006,16 @@ func (r *runner) emitProto(kind string, it protoItem, res batchResult, alone boo
 	rec := &hx.Record{Kind: kind, Case: Case{Seed: "proto." + it.pc.Proto, EP: "HandleInbound", Gen: "proto", Proto: &it.pc}}
 
 	if res.timeout {
-		o = Outcome{Class: "timeout"}
+		o = Outcome{Class: "timeout", Site: "HandleInbound:" + it.pc.Proto}
+
+		switch {
+		case res.held > 0:
+			o.Err = fmt.Sprintf("%d request(s) to a sender-controlled endpoint still open after the hang threshold", res.held)
+			o.Site = "fetch-of-sender-url:" + it.pc.Proto
+		case res.flood > 1<<25:
+			o.Err = fmt.Sprintf("%d bytes taken from an endless stream behind a sender-controlled URL", res.flood)
+			o.Site = "fetch-of-sender-url:" + it.pc.Proto
+		}
 	} else if res.crashed {
 		msg, site := workerPanicSite(res.stderr)
 		o = Outcome{Class: "panic", Err: msg, Site: site}
@@ -789,7 +1037,7 @@ func (r *runner) emitProto(kind string, it protoItem, res batchResult, alone boo
 
 	rec.Observed = o
 	rec.Class = fmt.Sprintf("E9|%s|%d|%s|%s|%v|%v|%s|%s", it.pc.Proto, it.pc.Index, it.pc.Path, it.pc.Mut, it.pc.Conn, it.pc.Second,
-		it.pc.Pre+it.pc.Via, o.Class)
+		it.pc.Pre+it.pc.Via+it.pc.Reply, o.Class)
 	rec.Dist = []string{"layer:E9", "ep:HandleInbound:" + it.pc.Proto, "outcome:" + o.Class, "gen:proto"}
 	if it.pc.Pre != "" {
 		rec.Dist = append(rec.Dist, "after-prefix:"+it.pc.Proto+":"+it.pc.Pre)
@@ -799,8 +1047,8 @@ func (r *runner) emitProto(kind string, it protoItem, res batchResult, alone boo
 		r.fails++
 		rec.Oracle = "fail"
 		rec.Sig = o.Class + "@" + o.Site
-		rec.Detail = fmt.Sprintf("%s in a handler goroutine of the agent: protocol %s, template %d, %s %s (conn=%v, delivered twice=%v, after prefix [%s], via %q): %s",
-			o.Class, it.pc.Proto, it.pc.Index, it.pc.Path, it.pc.Mut, it.pc.Conn, it.pc.Second, it.pc.Pre, it.pc.Via, o.Err)
+		rec.Detail = fmt.Sprintf("%s in a handler goroutine of the agent: protocol %s, template %d, %s %s (conn=%v, delivered twice=%v, after prefix [%s], via %q answered %q): %s",
+			o.Class, it.pc.Proto, it.pc.Index, it.pc.Path, it.pc.Mut, it.pc.Conn, it.pc.Second, it.pc.Pre, it.pc.Via, it.pc.Reply, o.Err)
 
 		if !alone {
 			rec.Detail += " [attributed inside a batch]"
@@ -866,18 +1114,28 @@ func (r *runner) runProtocols() {
 
 	var chunks [][]protoItem
 
-	for i := 0; i < len(items); i += batch {
+	var fast []protoItem
+
+	for _, it := range items {
+		if it.lateFirst {
+			chunks = append(chunks, []protoItem{it}) // waits for a timeout of the service: a worker of its own
+		} else {
+			fast = append(fast, it)
+		}
+	}
+
+	for i := 0; i < len(fast); i += batch {
 		j := i + batch
-		if j > len(items) {
-			j = len(items)
+		if j > len(fast) {
+			j = len(fast)
 		}
 
-		chunks = append(chunks, items[i:j])
+		chunks = append(chunks, fast[i:j])
 	}
 
 	// first pass: the chunks in parallel workers; a chunk whose worker died is split afterwards (sequentially)
 	results := make([]batchResult, len(chunks))
-	sem := make(chan struct{}, 5) //nolint:gomnd
+	sem := make(chan struct{}, 6) //nolint:gomnd
 	done := make(chan int, len(chunks))
 
 	for i := range chunks {
@@ -940,9 +1198,36 @@ func (r *runner) runProtoRange(items []protoItem) {
 	r.runProtoRange(items[mid:])
 }
 
+// replySeq: the peer's answers to the request of an application call.
+func replySeq(rp string, wire, seedWire []byte) ([][]byte, bool) {
+	switch rp {
+	case "twice":
+		return [][]byte{wire, wire}, false
+	case "then-seed":
+		return [][]byte{wire, seedWire}, false
+	case "seed-then":
+		return [][]byte{seedWire, wire}, false
+	case "late": // the call has given up when the answer arrives
+		return [][]byte{wire}, true
+	case "late-twice":
+		return [][]byte{wire, wire}, true
+	}
+
+	return [][]byte{wire}, false
+}
+
 // buildItem rebuilds the item of a protocol case from its description (used by replays and corpus witnesses, which
 // must not depend on the tier's sampling).
 func buildItem(pc ProtoCase) (protoItem, bool) {
+	if pc.Via == "ws-frame" {
+		fr := wsFrames()
+		if pc.Index < 0 || pc.Index >= len(fr) {
+			return protoItem{}, false
+		}
+
+		return protoItem{pc: pc, uniq: "-r", seq: [][]byte{fr[pc.Index]}}, true
+	}
+
 	list := templates()[pc.Proto]
 	if pc.Index < 0 || pc.Index >= len(list) {
 		return protoItem{}, false
@@ -974,6 +1259,8 @@ func buildItem(pc ProtoCase) (protoItem, bool) {
 	own := func(b []byte) []byte { return bytes.ReplaceAll(b, []byte("§"), []byte(it.uniq)) }
 
 	switch {
+	case strings.HasPrefix(pc.Via, "api:"):
+		it.seq, it.lateFirst = replySeq(pc.Reply, own(wire), own([]byte(list[pc.Index])))
 	case pc.Pre != "":
 		for _, f := range strings.Split(pc.Pre, ",") {
 			var pi int
@@ -1016,7 +1303,18 @@ func (r *runner) replayProto(c Case, kind string) bool {
 
 // coqProto hands the modelled pre-checks of the connection protocols / introduce (E9) the shape of the delivered
 // message.  Handlers work asynchronously: the observation is "the agent survived" (ONoCrash) or a crash.
-func (r *runner) coqProto(it protoItem, o Outcome) string {
+func (r *runner) coqProto(it protoItem, o Outcome) (out string) {
+	// the views are computed with the framework's own decoders: a crash of those is the worker's to report
+	defer func() {
+		if recover() != nil {
+			out = ""
+		}
+	}()
+
+	if it.pc.Via != "" {
+		return ""
+	}
+
 	obs := "ONoCrash"
 	if o.Class == "panic" {
 		obs = "OPanic"
@@ -1113,4 +1411,20 @@ func (r *runner) coqProto(it protoItem, o Outcome) string {
 	}
 
 	return ""
+}
+
+// wsFrames: short frames, quoted frames and their truncations.
+func wsFrames() [][]byte {
+	quoted := []byte("\"" + base64.URLEncoding.EncodeToString([]byte(`{"protected":"eyJ0eXAiOiJKV00vMS4wIn0","iv":"AAAA","ciphertext":"AAAA","tag":"AAAA"}`)) + "\"")
+
+	frames := [][]byte{{}, []byte("\""), []byte("\"\""), []byte("\"a\""), []byte("\"\"\""), []byte("{"), []byte("{}"), []byte("null"),
+		[]byte("[]"), []byte("\"e30\""), []byte("\"e30=\""), []byte("e30.e30.e30.e30.e30"), []byte("."), []byte("...."),
+		[]byte("\x00"), []byte("\xff\xfe"), quoted, []byte(`{"protected":"e30","recipients":[null]}`),
+		[]byte(`{"protected":"eyJ0eXAiOiJKV00vMS4wIiwiYWxnIjoiQXV0aGNyeXB0IiwicmVjaXBpZW50cyI6W3siaGVhZGVyIjp7ImtpZCI6IuKCrCJ9fV19","iv":"AAAA","ciphertext":"AAAA","tag":"AAAA"}`)}
+
+	for i := 1; i < len(quoted); i += 7 {
+		frames = append(frames, append([]byte{}, quoted[:i]...), append(append([]byte{}, quoted[:i]...), '"'))
+	}
+
+	return frames
 }
